@@ -322,4 +322,112 @@ theorem gen_unpack_sdp (q : SDP) (bs : List Nat) :
   | [_, _, _, _, _, _, _, _] | [_, _, _, _, _, _, _, _, _] =>
     simp [bytesInt, PyFun.pyStructSize, PyFun.PyFmt.size, excStr]
 
+/-- `SDPPacket.from_bytestring` as written in the source (`packet = cls()`, the attributes the constructor leaves
+are irrelevant) = the model's `decodeSDP` -/
+theorem gen_sdp_from_bytestring (q : SDP) (bs : List Nat) :
+    PyFun.SDPPacket_from_bytestring q.reply q.tag q.destPort q.destCpu q.srcPort q.srcCpu q.destX q.destY q.srcX q.srcY
+        (bytesInt q.data) (bytesInt bs)
+      = excStr sdpState (decodeSDP bs) := by
+  unfold PyFun.SDPPacket_from_bytestring
+  rw [gen_unpack_sdp]
+  cases decodeSDP bs with
+  | error e => cases e; rfl
+  | ok p => rfl
+
+/-- one 32-bit argument read at a byte offset inside the data -/
+theorem unpack_I (data : List Nat) (k : Nat) (h : k + 4 ≤ data.length) :
+    PyFun.pyStructUnpackFrom false [PyFun.PyFmt.I] (bytesInt data) (k : Int)
+      = .ok [((word32 ((data.drop k).take 4) : Nat) : Int)] := by
+  unfold PyFun.pyStructUnpackFrom
+  have h1 : ¬ ((k : Int) < 0) := by omega
+  have hsz : PyFun.pyStructSize [PyFun.PyFmt.I] = 4 := rfl
+  have h2 : ¬ ((k : Int) < 0 ∨ (((bytesInt data).length : Nat) : Int) - (k : Int) < ((4 : Nat) : Int)) := by
+    simp only [bytesInt, List.length_map]; omega
+  simp only [h1, if_false, hsz, h2, Int.toNat_natCast]
+  have hl : 4 ≤ (data.drop k).length := by rw [List.length_drop]; omega
+  have hd : (bytesInt data).drop k = bytesInt (data.drop k) := by simp [bytesInt]
+  rw [hd]
+  match hm : data.drop k, hl with
+  | a :: b :: c :: d :: rest, _ =>
+    simp [bytesInt, PyFun.pyStructValues, PyFun.PyFmt.size, PyFun.pyLeValue, word32]
+    rw [if_neg (by omega)]
+    refine congrArg Except.ok (congrArg (fun x => [x]) ?_)
+    omega
+
+theorem unpack_HH (c0 c1 s0 s1 : Nat) (rest : List Nat) :
+    PyFun.pyStructUnpackFrom false [PyFun.PyFmt.H, PyFun.PyFmt.H] (bytesInt (c0 :: c1 :: s0 :: s1 :: rest)) 0
+      = .ok [((c0 + 256 * c1 : Nat) : Int), ((s0 + 256 * s1 : Nat) : Int)] := by
+  unfold PyFun.pyStructUnpackFrom
+  have hsz : PyFun.pyStructSize [PyFun.PyFmt.H, PyFun.PyFmt.H] = 4 := rfl
+  have h2 : ¬ ((0 : Int) < 0 ∨ (((bytesInt (c0 :: c1 :: s0 :: s1 :: rest)).length : Nat) : Int) - 0 < ((4 : Nat) : Int)) := by
+    simp only [bytesInt, List.length_map, List.length_cons]; omega
+  simp only [Int.lt_irrefl, if_false, hsz, h2]
+  simp [bytesInt, PyFun.pyStructValues, PyFun.PyFmt.size, PyFun.pyLeValue]
+  try omega
+
+/-- `data[off:]` for an offset inside the data -/
+theorem pySlice_drop (data : List Nat) (k : Nat) (h : k ≤ data.length) :
+    PyFun.pySlice (bytesInt data) (k : Int) (((bytesInt data).length : Nat) : Int) = bytesInt (data.drop k) := by
+  rw [pySlice_from _ _ (by omega) (by simp [bytesInt]; omega)]
+  simp [bytesInt]
+
+/-- `SCPPacket.from_bytestring` as written in the source (the fresh packet has no arguments; its other attributes
+are irrelevant) = the model's `decodeSCP`: which byte strings are refused, command and sequence number, how many
+arguments are decoded for the given `n_args` and length, and what remains as data -/
+theorem gen_scp_from_bytestring (q : SDP) (c0 s0 : Int) (bs : List Nat) (nArgs : Nat) :
+    PyFun.SCPPacket_from_bytestring q.reply q.tag q.destPort q.destCpu q.srcPort q.srcCpu q.destX q.destY q.srcX q.srcY
+        (bytesInt q.data) c0 s0 none none none (bytesInt bs) (nArgs : Int)
+      = excStr scpState (decodeSCP bs nArgs) := by
+  unfold PyFun.SCPPacket_from_bytestring decodeSCP
+  rw [gen_unpack_sdp]
+  cases hp : decodeSDP bs with
+  | error e => cases e; rfl
+  | ok p =>
+    simp only [excStr, sdpState, bind, Except.bind, pure, Except.pure]
+    match hd : p.data with
+    | [] | [_] | [_, _] | [_, _, _] =>
+      simp [PyFun.pyStructUnpackFrom, PyFun.pyStructSize, PyFun.PyFmt.size, bytesInt, excStr]
+    | a0 :: a1 :: b0 :: b1 :: data =>
+      rw [unpack_HH]
+      have hs4 : PyFun.pySlice (bytesInt (a0 :: a1 :: b0 :: b1 :: data)) 4
+          (((bytesInt (a0 :: a1 :: b0 :: b1 :: data)).length : Nat) : Int) = bytesInt data := by
+        have := pySlice_drop (a0 :: a1 :: b0 :: b1 :: data) 4 (by simp)
+        simpa using this
+      simp only [hs4, List.getD_cons_zero, List.getD_cons_succ]
+      have hlen : ((bytesInt data).length : Int) = (data.length : Int) := by simp [bytesInt]
+      rw [hlen]
+      by_cases h1 : nArgs ≥ 1 ∧ data.length ≥ 4
+      · have h1' : ((nArgs : Int) ≥ 1 ∧ (data.length : Int) ≥ 4) := by omega
+        have u1 := unpack_I data 0 (by omega)
+        simp only [Nat.cast_zero] at u1
+        simp only [h1, h1', and_self, if_true, u1, List.getD_cons_zero]
+        by_cases h2 : nArgs ≥ 2 ∧ data.length ≥ 8
+        · have h2' : ((nArgs : Int) ≥ 2 ∧ (data.length : Int) ≥ 8) := by omega
+          have u2 := unpack_I data 4 (by omega)
+          have e4 : (0 : Int) + 4 = ((4 : Nat) : Int) := rfl
+          simp only [h2, h2', and_self, if_true, e4, u2, List.getD_cons_zero]
+          by_cases h3 : nArgs ≥ 3 ∧ data.length ≥ 12
+          · have h3' : ((nArgs : Int) ≥ 3 ∧ (data.length : Int) ≥ 12) := by omega
+            have u3 := unpack_I data 8 (by omega)
+            have e8 : ((4 : Nat) : Int) + 4 = ((8 : Nat) : Int) := rfl
+            have e12 : ((8 : Nat) : Int) + 4 = ((12 : Nat) : Int) := rfl
+            simp only [h3, h3', and_self, if_true, e8, e12, u3, List.getD_cons_zero]
+            rw [← hlen, pySlice_drop data 12 (by omega)]
+            simp [excStr, scpState, optI, bytesInt, hd]
+          · have h3' : ¬ ((nArgs : Int) ≥ 3 ∧ (data.length : Int) ≥ 12) := by omega
+            have e8 : ((4 : Nat) : Int) + 4 = ((8 : Nat) : Int) := rfl
+            simp only [h3, h3', if_false, e8]
+            rw [← hlen, pySlice_drop data 8 (by omega)]
+            simp [excStr, scpState, optI, bytesInt, hd]
+        · have h2' : ¬ ((nArgs : Int) ≥ 2 ∧ (data.length : Int) ≥ 8) := by omega
+          have e4 : (0 : Int) + 4 = ((4 : Nat) : Int) := rfl
+          simp only [h2, h2', if_false, e4]
+          rw [← hlen, pySlice_drop data 4 (by omega)]
+          simp [excStr, scpState, optI, bytesInt, hd]
+      · have h1' : ¬ ((nArgs : Int) ≥ 1 ∧ (data.length : Int) ≥ 4) := by omega
+        simp only [h1, h1', if_false]
+        have e0 : (0 : Int) = ((0 : Nat) : Int) := rfl
+        rw [← hlen, e0, pySlice_drop data 0 (by omega)]
+        simp [excStr, scpState, optI, bytesInt, hd]
+
 end Rig.C15
